@@ -1,3 +1,4 @@
+import Mqtt5V.Proofs.PubSend
 import Mqtt5V.Proofs.PidAlloc
 /-! # C08 — packet identifiers are unique among outstanding exchanges and never zero
 
@@ -136,5 +137,27 @@ theorem alloc_is_lowest_unused (ops : List Op) (s : Sys) (hr : Sys.init.run ops 
 /-- non-vacuity: a concrete history with splitting and merging is legal and reaches a non-trivial state -/
 example : (Sys.init.run [.alloc, .alloc, .alloc, .free 2, .alloc, .free 1, .free 3]).map (·.live) = some [2] := by
   decide
+
+
+/-! ## the publish operation (`publish_send_op`, Model/PubSend.lean, tied by the H-pubsend lock-step) -/
+section PubSendOp
+open Mqtt5V.Model.PubSend Mqtt5V.Proofs.PubSend
+
+/-- **the packet identifier of a publish is released exactly once, immediately before its one completion, on every path**
+(success, failing acknowledgement, aborted write, cancellation during a re-send): this is rule 4 of the operation monitor
+(`Proofs.PubSend.Mon.feed`), which no history violates -/
+theorem publish_releases_its_identifier_exactly_once (qos2 : Bool) (is : List In) :
+    (({} : Mon).feedAll qos2 (trace qos2 is)).bad = false ∧
+    ((({} : Mon).feedAll qos2 (trace qos2 is)).freed = (({} : Mon).feedAll qos2 (trace qos2 is)).completed) := by
+  refine ⟨rules_hold qos2 is, ?_⟩
+  have h := rel_run is (start qos2).1 _ (rel_start qos2)
+  have hq : (start qos2).1.qos2 = qos2 := rfl
+  rw [hq] at h
+  unfold trace
+  rw [feedAll_append]
+  simp only [rel, Bool.and_eq_true, Bool.not_eq_true', beq_iff_eq] at h
+  exact h.1.2
+
+end PubSendOp
 
 end Mqtt5V.Props.C08
